@@ -446,6 +446,11 @@ func (e *Env) evalSelector(n *ast.SelectorExpr) Val {
 			if i := structFieldIndex(s, n.Sel.Name); i >= 0 {
 				return x.Fs[i]
 			}
+			for k, gf := range e.r.W.ghostFieldsOf(x.T) {
+				if gf.Name == n.Sel.Name && s.NumFields()+k < len(x.Fs) {
+					return x.Fs[s.NumFields()+k]
+				}
+			}
 		}
 		return e.fail("no field %s in struct value", n.Sel.Name)
 	}
@@ -844,6 +849,23 @@ func (e *Env) evalCall(n *ast.CallExpr) Val {
 			return e.fail("at() of non-sequence")
 		}
 		return intVal(sx("bat", s, arg(1).S), nil)
+	case "aseq":
+		// aseq(a, o, n): the n bytes of array a starting at o (Arr-sorted a)
+		return seqVal(sx("seqOf", arg(0).S, arg(1).S, arg(2).S))
+	case "arr":
+		// arr(x): the backing array of slice / array pointer x as an Arr value
+		v := arg(0)
+		switch v.K {
+		case KSlice:
+			return Val{K: KArr, S: sx("select", e.st.heap["A"], v.Bas)}
+		case KRef:
+			return Val{K: KArr, S: sx("select", e.st.heap["A"], v.S)}
+		case KArr:
+			return v
+		}
+		return e.fail("arr() of non-array")
+	case "aget":
+		return intVal(sx("select", arg(0).S, arg(1).S), nil)
 	case "zeros":
 		return seqVal(sx("bzeros", arg(0).S))
 	case "be16", "be32", "be64", "bbyte":
